@@ -120,9 +120,12 @@ func CheckBoot(c BCase) (v vcase.Verdict) {
 	v.Label("N=" + fmt.Sprint(c.N))
 	v.Label("kind=" + c.Kind)
 	pred := knownAPredicate(c.Conf, c.N)
-	if pred {
+	switch {
+	case c.N == 1:
+		v.Label("N1_single_replicate") // confidence*N < 1 always, but one replicate cannot be out of order
+	case pred:
 		v.Label("conf_lt_1_over_N")
-	} else {
+	default:
 		v.Label("conf_gt_1_over_N")
 	}
 	switch {
@@ -231,7 +234,7 @@ func CheckBoot(c BCase) (v vcase.Verdict) {
 var bootNs = []int{1, 2, 7, 100, 500}
 
 func genConf(t *rapid.T, n int) float64 {
-	le := rapid.IntRange(0, 11).Draw(t, "conf_le_1_over_N") == 0
+	le := rare(t, "conf_le_1_over_N", 11)
 	if le {
 		switch rapid.IntRange(0, 4).Draw(t, "lekind") {
 		case 0:
